@@ -411,6 +411,14 @@ class OrderingList(List[_T]):
         super().__delitem__(index)
         self._reorder()
 
+    def sort(self, **kw: Any) -> None:
+        super().sort(**kw)
+        self._reorder()
+
+    def reverse(self) -> None:
+        super().reverse()
+        self._reorder()
+
     def __reduce__(self) -> Any:
         return _reconstitute, (self.__class__, self.__dict__, list(self))
 
